@@ -287,6 +287,27 @@ fn io_ints<const D: usize>(dv: &[u8], vals: &[i64]) -> CaseResult {
     let mut rd = Reader::new(Box::new(text.as_bytes()));
     let back = Tensor::<i64, D>::read(dims, &mut rd);
     vensure!(back.iter().cloned().collect::<Vec<_>>() == data && back == t, "io-roundtrip", "dims {:?}: i64 tensor written as {:?} read back as {:?}", dv, text, back.iter().collect::<Vec<_>>());
+    // the usual shape of an input: the dimensions first, then the tensor - and a second tensor of one-digit elements behind it -
+    // all through ONE writer and read back through ONE reader that is no longer fresh when the tensors are read
+    let small: Vec<u8> = (0..len).map(|i| (vals[i % vals.len().max(1)].unsigned_abs() % 10) as u8).collect();
+    let t2 = Tensor::<u8, D>::from_vec(dims, small.clone());
+    let mut out = Vec::new();
+    {
+        let mut w = rlib_io::Writer::new(Box::new(&mut out));
+        w.write(&dims.to_vec());
+        w.write_char('\n');
+        w.write(&t);
+        w.write_char('\n');
+        w.write(&t2);
+        // (no trailing newline: the input ends right after the last element)
+    }
+    let mut rd = Reader::new(Box::new(std::io::Cursor::new(out.clone())));
+    let dims_back: Vec<usize> = rd.read_vec(D);
+    vensure!(dims_back == dims.to_vec(), "io-roundtrip", "dims {:?} written and read back as {:?}", dv, dims_back);
+    let b1 = Tensor::<i64, D>::read(dims, &mut rd);
+    let b2 = Tensor::<u8, D>::read(dims, &mut rd);
+    vensure!(b1 == t && b2 == t2 && b2.iter().cloned().collect::<Vec<_>>() == small, "io-roundtrip", "dims {:?}: the shape and two tensors written through one writer ({:?}) read back through one reader as {:?} and {:?}", dv, String::from_utf8_lossy(&out), b1.iter().collect::<Vec<_>>(), b2.iter().collect::<Vec<_>>());
+    vensure!(rd.is_eof(), "io-roundtrip", "dims {:?}: input not exhausted after reading both tensors", dv);
     let mut st = CaseStats::default();
     st.nontrivial = D >= 2 && data.iter().any(|&v| v < 0);
     Ok(st)
@@ -420,7 +441,7 @@ fn main() {
          lengths and zero extents must panic in from_vec, from_slice, new and read; writing then Tensor::read(dims) gives an equal tensor \
          and the written tokens are the elements in iter() order. Equality: all pairs of shapes of equal rank and element count with \
          identical data must compare unequal unless the dims are equal (element types i64, (), String, Vec<u8>, (u8, bool)); equal dims with one differing element compare unequal. \
-         22 shapes with large extents (255..65537 in one dimension) are checked on 1500 sampled indices each. Generated i64 (full range) and String element values for the IO round trip. Non-trivial = rank >= 2 (the invalid dimension is \
+         22 shapes with large extents (255..65537 in one dimension) are checked on 1500 sampled indices each. Generated i64 (full range) and String element values for the IO round trip; also the shape, the tensor and a second tensor of one-digit elements through one writer and back through one (then no longer fresh) reader, the input ending right after the last element. Non-trivial = rank >= 2 (the invalid dimension is \
          then not always the last one) / shapes that differ. Distinct = distinct (sub-check, case).",
     );
     ctx.assume("panics demanded by the contract (out-of-range index, zero extent, length mismatch) are expected outcomes and asserted as such");
